@@ -61,7 +61,10 @@ func outside(i int) {
 	q := sets[i%len(sets)]
 	ev.Guard(func() { ciexyz.TransformToXYZForXYYPrimaries(q[0], q[1], q[2], q[3]) })
 	ev.Guard(func() { ciexyz.TransformFromXYZForXYYPrimaries(q[0], q[1], q[2], q[3]) })
-	ms := []matrix.Matrix3{{}, {{1, 2, 3}, {2, 4, 6}, {0, 1, 0}}, {{math.NaN(), 0, 0}, {0, 1, 0}, {0, 0, 1}}, {{math.Inf(1), 0, 0}, {0, 1, 0}, {0, 0, 1}}, {{1e-200, 0, 0}, {0, 1e-200, 0}, {0, 0, 1e-200}}}
+	ms := []matrix.Matrix3{{}, {{1, 2, 3}, {2, 4, 6}, {0, 1, 0}}, {{math.NaN(), 0, 0}, {0, 1, 0}, {0, 0, 1}}, {{math.Inf(1), 0, 0}, {0, 1, 0}, {0, 0, 1}}, {{1e-200, 0, 0}, {0, 1e-200, 0}, {0, 0, 1e-200}},
+		// exactly singular (a repeated or zero column vector) at magnitudes far from 1
+		{{1e-120, 2e-120, 3e-120}, {1e-120, 2e-120, 3e-120}, {0, 1e-120, 0}}, {{3e110, 1e110, 2e110}, {0, 0, 0}, {1e110, 1e110, 5e110}}, {{1e-300, 1e-300, 0}, {1e-300, 1e-300, 0}, {0, 0, 1e-300}},
+		{{7e95, 0, 1}, {7e95, 0, 1}, {0.5, 0.25, 4}}, {{2.5e-95, 1e-95, 0}, {0, 0, 0}, {1e-95, 0, 3e-95}}, {{1e200, 1e200, 1e200}, {1e200, 1e200, 1e200}, {1, 2, 3}}}
 	ev.Guard(func() { ms[i%len(ms)].Inverse() })
 }
 
@@ -577,6 +580,10 @@ func TestC20(t *testing.T) {
 			}
 		}
 		c := MatCase{Op: "singular", A: m}
+		if kind >= 5 {
+			// a repeated or zero column stays exactly singular at any magnitude
+			c.Exp10 = rapid.SampledFrom([]int{0, 0, -95, -40, 40, 95}).Draw(rt, "exp10")
+		}
 		ev.Eval(1)
 		ev.NT(ev.Hash("sing", c))
 		ev.Class(fmt.Sprintf("singular-kind-%d", kind), 1)
